@@ -256,6 +256,12 @@ fn path_is_stylua_ignored(path: &Path, search_parent_directories: bool) -> Resul
     )
     .context("failed to parse ignore file")?;
 
+    // An ignore file only governs the paths below its own directory. When we fell back to the ignore file of the
+    // current directory, the path may lie outside of it, and the matcher panics for such a path.
+    if path.has_root() && !path.starts_with(ignore.path()) {
+        return Ok(false);
+    }
+
     Ok(matches!(
         ignore.matched_path_or_any_parents(path, false),
         ignore::Match::Ignore(_)
